@@ -151,6 +151,24 @@ def r161(ctx, rep):
                                  'a pass through the loop yields %s time(s) depending on the path: rows are dropped or '
                                  'duplicated' % sorted(counts, key=lambda x: (x is None, x)), lp)
             var = _row_var(lp)
+            # the name that holds the pulled row is not bound to anything else inside the pass
+            if var is not None:
+                pump = None
+                if not isinstance(lp, ast.For):
+                    for x in ast.walk(lp):
+                        if isinstance(x, ast.Assign) and isinstance(x.value, ast.Call) and norm(x.value.func) == 'next' and \
+                                isinstance(x.targets[0], ast.Name) and x.targets[0].id == var:
+                            pump = x
+                            break
+                for b in lp.body:
+                    for x in ast.walk(b):
+                        if isinstance(x, ast.Name) and x.id == var and isinstance(x.ctx, (ast.Store, ast.Del)) and \
+                                not (pump is not None and x is pump.targets[0]):
+                            ok = False
+                            rep.violated('R16.1', fn, 're-binding of `%s`' % var,
+                                         '`%s` holds the row this pass pulled and is yielded at the end of the pass, but it is '
+                                         'assigned something else on the way: on that path the view hands on that value instead '
+                                         'of the row' % var, x)
             for y in [x for b in lp.body for x in ast.walk(b) if isinstance(x, ast.Yield)]:
                 t = norm(y.value) if y.value is not None else ''
                 same = (var, 'tuple(%s)' % var)
